@@ -896,7 +896,8 @@ struct TemplateCore {
         const Char_T *var = (content + tag.Offset);
 
         while (loop_tag != nullptr) {
-            if (StringUtils::IsEqual(var, (content + (loop_tag->Offset + loop_tag->ValueOffset)),
+            if ((loop_tag->ValueLength != SizeT8{0}) &&
+                StringUtils::IsEqual(var, (content + (loop_tag->Offset + loop_tag->ValueOffset)),
                                      loop_tag->ValueLength)) {
                 tag.IDLength = loop_tag->ValueLength;
                 tag.Level    = loop_tag->Level;
